@@ -250,6 +250,9 @@ pub struct MemCfg {
     pub pipe: bool,
     /// Predict victims with the reference algorithm (C14) in addition to following them.
     pub predict: bool,
+    /// Build the cache without an event listener (some code paths differ when none is configured).
+    #[serde(default)]
+    pub no_listener: bool,
 }
 
 impl MemCfg {
@@ -428,8 +431,12 @@ pub fn build_cache(cfg: &MemCfg, rec: &Arc<Recorder>, hasher: &VHash) -> MC {
         .with_filter(|k: &DK, v: &DV| {
             hook(Callback::Filter, k.0);
             !value_reject(v.0)
-        })
-        .with_event_listener(Arc::new(Listener { rec: rec.clone() }));
+        });
+    let b = if cfg.no_listener {
+        b
+    } else {
+        b.with_event_listener(Arc::new(Listener { rec: rec.clone() }))
+    };
     let cache: MC = b.build();
     if cfg.pipe {
         cache.with_pipe(Arc::new(RecPipe { rec: rec.clone() }))
